@@ -1055,7 +1055,9 @@ class QuantityMeta(ClassWithDefinitionMeta):
         unit._qty_cls = cls
         if isinstance(define_as, Term):
             unit._definition = define_as
-            unit._equiv = define_as.normalized().num_elem or ONE
+            # multiply by ONE to make sure that the factor is not an int
+            # (dividing ints would result in floats)
+            unit._equiv = ONE * (define_as.normalized().num_elem or ONE)
         else:
             assert define_as is None, "Unknown type of Unit definition."
             unit._definition = None
